@@ -108,7 +108,11 @@ fn gen_xorb(rng: &mut Rng, big: bool) -> Xorb {
 fn gen_plan(rng: &mut Rng, id: usize, big: bool, shared_url: bool) -> PlanSpec {
     let nx = 1 + rng.below(4) as usize;
     let xorbs: Vec<Xorb> = (0..nx).map(|_| gen_xorb(rng, big)).collect();
-    let nt = match rng.below(6) { 0 => 1, 1 => 2, 2 => 3, _ => 1 + rng.below(if big { 40 } else { 9 }) } as usize;
+    // every 16th plan has more terms than one window of concurrent range gets (NUM_CONCURRENT_RANGE_GETS = 16; 100 in
+    // high-performance mode: every 160th plan), so that per-window bookkeeping of the writers is exercised in the quick tier too
+    let many = !shared_url && id % 16 == 5;
+    let nt = if many && id % 160 == 21 { 101 + rng.below(40) as usize } else if many { 17 + rng.below(36) as usize }
+             else { (match rng.below(6) { 0 => 1, 1 => 2, 2 => 3, _ => 1 + rng.below(if big { 40 } else { 9 }) }) as usize };
     let mut terms: Vec<TermSpec> = Vec::new();
     for _ in 0..nt {
         // repeated xorb / repeated identical term / fresh
@@ -436,7 +440,7 @@ pub fn run(ctx: &mut Ctx) {
         let mut starts = vec![0u64];
         for t in &plan.terms { starts.push(starts.last().unwrap() + plan.term_bytes(t).len() as u64); }
 
-        ctx.stat(&format!("plan_terms_{}", match plan.terms.len() { 1 => "1", 2 => "2", 3..=5 => "3-5", 6..=12 => "6-12", _ => "13+" }));
+        ctx.stat(&format!("plan_terms_{}", match plan.terms.len() { 1 => "1", 2 => "2", 3..=5 => "3-5", 6..=12 => "6-12", 13..=16 => "13-16", 17..=100 => "17-100", _ => "101+" }));
         let repeated_xorb = (0..plan.terms.len()).any(|i| (0..i).any(|j| plan.terms[i].xorb == plan.terms[j].xorb));
         let repeated_term = (0..plan.terms.len()).any(|i| (0..i).any(|j| plan.terms[i].xorb == plan.terms[j].xorb && plan.terms[i].s == plan.terms[j].s && plan.terms[i].e == plan.terms[j].e));
         let larger_fetch = plan.terms.iter().any(|t| plan.fetch.iter().any(|f| f.xorb == t.xorb && f.s <= t.s && t.e <= f.e && (f.s, f.e) != (t.s, t.e)));
